@@ -25,7 +25,7 @@ SPEC = {
                     "coordinates compare as float(token)"],
     "monitors_required": ["c07_model_compare", "c07_explicit_default_relation"],
     "required_obs": {"quick": ["split_class", "multi_split_lines", "star_files", "star_endpoints_ge_10", "extra_kw/EXACHG", "explicit_default", "explicit_default_mass_on_DT", "dt_seen", "cov_graph_from_file", "cov_every_offset_lines",
-                               "cov_zero_bond_file", "cov_crlf"]},
+                               "cov_zero_bond_file", "cov_crlf", "cov_corpus_files_vs_own_reader"]},
     "watchdog_s": {"quick": 900, "thorough": 5400},
 }
 PLAN = {"quick": {"cases": 6000, "every_offset": 24}, "thorough": {"cases": 80000, "every_offset": 600}}
@@ -182,6 +182,15 @@ def run(ctx):
         run_case(ctx, case)
         if k % 10 == 0:
             relational_defaults(ctx, mol, case)
+    # corpus molfiles: (a) the file as shipped, judged against the harness's own reader; (b) re-rendered with random spellings
+    import tucan.io.molfile_reader as mr
+    for path, mol in common.corpus_mols(ctx):
+        ctx.evaluations += 1
+        g = mr.graph_from_file(path)
+        check_read(ctx, mol, V3Style(), open(path).read(), g, {"mol": mol.to_json(), "vseed": f"corpus/{mol.name}", "corpus_file": path})
+        ctx.count("cov_corpus_files_vs_own_reader")
+        if len(mol.atoms) <= 80:
+            run_case(ctx, {"mol": mol.to_json(), "vseed": f"{ctx.seed}/corpus/{mol.name}"})
     # every split offset of every logical line of a few molecules
     for k in range(common.share(ctx, plan["every_offset"])):
         mol = G.random_organic(rng, 2, 7)
